@@ -5,7 +5,7 @@ import os
 TXN_FIXED = "webhooks,syncdb,settings,pin"
 PROP = dict(
     engine="txn", harness="txn", driver="drv_txn",
-    driver_args=["--fixed=" + os.environ.get("VERIF_TXN_FIXED", TXN_FIXED)],
+    driver_args=["--fixed=" + os.environ.get("VERIF_TXN_FIXED", TXN_FIXED), "--focus=c09/,shape,resume_twin,vop"],
     props=["Hostd.Props.C09"],
     flag_filter=r"^c09/|^shape|^resume_twin|^vop",
     # n = histories (10 kinds in rotation: store sweeps, manager sweeps, chain resume, real volumes, batched loops),
